@@ -29,6 +29,9 @@ def compare(ck, texts, impl_outs=None):
             flag = g.pop()
             if flag.endswith("BAD"):
                 hyp.append((k, flag))
+        if f[0] == "unavailable":
+            dist["unavailable"] = dist.get("unavailable", 0) + 1
+            continue     # the in-process harness does not build on this tree (reported once by build_harness)
         if f[0] == "ok":
             iv = ("accept", f[3], f[2], f[1])
         elif f[0] == "err":
